@@ -30,7 +30,7 @@ from .. import boot, canon, pool
 from .. import c13_cat as cat
 
 ID = 'C13'
-BUDGET = {'quick': 300, 'thorough': 2400}
+BUDGET = {'quick': 900, 'thorough': 3600}
 
 JUDGED = cat.JUDGED_KINDS
 
@@ -115,40 +115,60 @@ FEATURE_ATTRS = {'P': ['prop'], 'ND': ['nd'], 'DD': ['dd'], 'SL': ['sl'], 'MP': 
                  'GA': ['dyn', '__getattr__'], 'GAT': ['__getattribute__'],
                  'GI': ['__getitem__'], 'IT': ['__iter__', '__next__'], 'CA': ['__call__'],
                  'LE': ['__len__'], 'BO': ['__bool__']}
-COMMON_ATTRS = ['plain', 'ia', 'meth', 'mut', 'pcont', 'icont', 'baseattr', '__class__',
-                '__dict__', 'nonexist_']
+# which expression groups exercise a feature (the "relevant" selection of the quick tier)
+FEATURE_GROUPS = {'P': ['attr:prop'], 'ND': ['attr:nd'], 'DD': ['attr:dd'], 'SL': ['attr:sl'],
+                  'MP': ['attr:mp'], 'GA': ['attr:dyn'], 'GAT': [], 'GI': ['item', 'iter'],
+                  'IT': ['iter'], 'CA': ['call'], 'LE': ['len', 'bool', 'iter'], 'BO': ['bool']}
+CORE_ATTRS = ['plain', 'ia', 'meth', 'nonexist_', '__class__']
+MISC_ATTRS = ['mut', 'pcont', 'icont', 'baseattr', '__dict__']
 
-WRAPS = [('next', 'next({T})'), ('iter', 'iter({T})'), ('list', 'list({T})'),
-         ('list0', 'list({T})[0]'), ('tuple', 'tuple({T})'), ('len', 'len({T})'),
-         ('bool', 'bool({T})'), ('not', '(not {T})'), ('and', '({T} and 1)'), ('or', '({T} or 1)'),
-         ('ifexp', "(1 if {T} else '')"), ('comp', '[x_ for x_ in {T}][0]'),
-         ('star', '[*{T}][0]'), ('sorted', 'sorted({T})'), ('reversed', 'reversed({T})'),
-         ('enumerate', 'enumerate({T})'), ('zip', 'zip({T})'), ('dict', 'dict({T})'),
-         ('set', 'set({T})'), ('min', 'min({T})'), ('any', 'any({T})'), ('in', '(1 in {T})'),
-         ('type', 'type({T})'), ('idxk', "{T}['k']"), ('idxu', '{T}[unk2_]'), ('idxn', '{T}[-1]'),
-         ('slice', '{T}[0:1]'), ('call1', '{T}(1)'), ('callcall', '{T}()()'),
-         ('neg', '(-{T})'), ('eq', '({T} == {T})'), ('add', '({T} + {T})'),
-         ('isinst', 'isinstance({T}, int)'), ('str', 'str({T})'), ('repr', 'repr({T})'),
-         ('fstr', "f'{{{T}}}'"), ('dictkey', '{{1: 2}}[{T}]'), ('listidx', '[1, ""][{T}]')]
+# value expressions: (id, group, format, head)   head = gets the full battery in relevant mode
+VALS = [
+    ('self', 'core', '{T}', True), ('type', 'core', 'type({T})', False),
+    ('[0]', 'item', '{T}[0]', True), ('idxk', 'item', "{T}['k']", False),
+    ('idxu', 'item', '{T}[unk2_]', False), ('idxn', 'item', '{T}[-1]', False),
+    ('slice', 'item', '{T}[0:1]', False), ('[0].leafattr', 'item', '{T}[0].leafattr', False),
+    ('[0][0]', 'item', '{T}[0][0]', False), ('[0]()', 'item', '{T}[0]()', False),
+    ('()', 'call', '{T}()', True), ('call1', 'call', '{T}(1)', False),
+    ('()()', 'call', '{T}()()', False), ('().leafattr', 'call', '{T}().leafattr', False),
+    ('()[0]', 'call', '{T}()[0]', False),
+    ('next', 'iter', 'next({T})', False), ('iter', 'iter', 'iter({T})', False),
+    ('list', 'iter', 'list({T})', False), ('list0', 'iter', 'list({T})[0]', False),
+    ('tuple', 'iter', 'tuple({T})', False), ('comp', 'iter', '[x_ for x_ in {T}][0]', False),
+    ('star', 'iter', '[*{T}][0]', False), ('sorted', 'iter', 'sorted({T})', False),
+    ('reversed', 'iter', 'reversed({T})', False), ('enumerate', 'iter', 'enumerate({T})', False),
+    ('zip', 'iter', 'zip({T})', False), ('dict', 'iter', 'dict({T})', False),
+    ('set', 'iter', 'set({T})', False), ('min', 'iter', 'min({T})', False),
+    ('any', 'iter', 'any({T})', False), ('in', 'iter', '(1 in {T})', False),
+    ('len', 'len', 'len({T})', True),
+    ('bool', 'bool', 'bool({T})', False), ('not', 'bool', '(not {T})', True),
+    ('and', 'bool', '({T} and 1)', False), ('or', 'bool', '({T} or 1)', False),
+    ('ifexp', 'bool', "(1 if {T} else '')", False),
+    ('neg', 'misc', '(-{T})', False), ('eq', 'misc', '({T} == {T})', False),
+    ('add', 'misc', '({T} + {T})', False), ('isinst', 'misc', 'isinstance({T}, int)', False),
+    ('str', 'misc', 'str({T})', False), ('repr', 'misc', 'repr({T})', False),
+    ('fstr', 'misc', "f'{{{T}}}'", False), ('dictkey', 'misc', '{{1: 2}}[{T}]', False),
+    ('listidx', 'misc', '[1, ""][{T}]', False)]
 
-STMTS = [('for', 'for v_ in {T}:\n    pass\n'),
-         ('for2', 'for v_, w_ in {T}:\n    pass\n'),
-         ('unpack', 'v_, w_ = {T}\n'),
-         ('starunpack', 'v_, *w_ = {T}\n'),
-         ('if', 'if {T}:\n    v_ = 1\nelse:\n    v_ = ""\n'),
-         ('ifnot', 'if not {T}:\n    v_ = 1\nelse:\n    v_ = ""\n'),
-         ('iflen', 'if len({T}):\n    v_ = 1\nelse:\n    v_ = ""\n'),
-         ('while', 'while {T}:\n    v_ = 1\n    break\n'),
-         ('starargs', 'def f_(*a):\n    return a\nv_ = f_(*{T})\n'),
-         ('kwargs', 'def g_(**k):\n    return k\nv_ = g_(**{T})\n'),
-         ('dictunpack', 'v_ = {{**{T}}}\n'),
-         ('assert', 'assert {T}\nv_ = {T}\n'),
-         ('with', 'with {T} as v_:\n    pass\n'),
-         ('yieldfrom', 'def h_():\n    yield from {T}\nv_ = list(h_())[0]\n'),
-         ('genexp', 'v_ = next(x_ for x_ in {T})\n'),
-         ('dictcomp', 'v_ = {{x_: 1 for x_ in {T}}}\n'),
-         ('param', 'def p_(a=len({T})):\n    return a\nv_ = p_()\n'),
-         ('flowret', 'def r_():\n    if {T}:\n        return 1\n    return ""\nv_ = r_()\n')]
+STMTS = [('for', 'iter', 'for v_ in {T}:\n    pass\n', True),
+         ('for2', 'iter', 'for v_, w_ in {T}:\n    pass\n', False),
+         ('unpack', 'iter', 'v_, w_ = {T}\n', False),
+         ('starunpack', 'iter', 'v_, *w_ = {T}\n', False),
+         ('starargs', 'iter', 'def f_(*a):\n    return a\nv_ = f_(*{T})\n', False),
+         ('kwargs', 'iter', 'def g_(**k):\n    return k\nv_ = g_(**{T})\n', False),
+         ('dictunpack', 'iter', 'v_ = {{**{T}}}\n', False),
+         ('yieldfrom', 'iter', 'def h_():\n    yield from {T}\nv_ = list(h_())[0]\n', False),
+         ('genexp', 'iter', 'v_ = next(x_ for x_ in {T})\n', False),
+         ('dictcomp', 'iter', 'v_ = {{x_: 1 for x_ in {T}}}\n', False),
+         ('if', 'bool', 'if {T}:\n    v_ = 1\nelse:\n    v_ = ""\n', True),
+         ('ifnot', 'bool', 'if not {T}:\n    v_ = 1\nelse:\n    v_ = ""\n', False),
+         ('while', 'bool', 'while {T}:\n    v_ = 1\n    break\n', False),
+         ('assert', 'bool', 'assert {T}\nv_ = {T}\n', False),
+         ('flowret', 'bool', 'def r_():\n    if {T}:\n        return 1\n    return ""\nv_ = r_()\n',
+          False),
+         ('iflen', 'len', 'if len({T}):\n    v_ = 1\nelse:\n    v_ = ""\n', False),
+         ('param', 'len', 'def p_(a=len({T})):\n    return a\nv_ = p_()\n', False),
+         ('with', 'misc', 'with {T} as v_:\n    pass\n', False)]
 
 # (method, kwargs) batteries.  Every query is asked at the end of its code.
 B_FULL = [('infer', {}), ('goto', {'follow_imports': True}), ('help', {}),
@@ -164,12 +184,20 @@ def _end(code):
 
 
 def _shape_attrs(shape):
-    attrs = list(COMMON_ATTRS)
+    attrs = CORE_ATTRS + MISC_ATTRS
     for f, _p in shape:
         for a in FEATURE_ATTRS[f]:
             if a not in attrs:
                 attrs.append(a)
     return attrs
+
+
+def _attr_exprs(a, group, head):
+    return [('.' + a, group, '{T}.' + a, head),
+            ('getattr:' + a, group, "getattr({T}, '%s')" % a, False),
+            ('.%s.leafattr' % a, group, '{T}.%s.leafattr' % a, False),
+            ('.%s[0]' % a, group, '{T}.%s[0]' % a, False),
+            ('.%s()' % a, group, '{T}.%s()' % a, False)]
 
 
 def _step_alphabet(shape):
@@ -188,57 +216,106 @@ def _seqs(steps, maxlen):
         yield from level
 
 
-def shape_queries(shape, tier, roots, light=False):
-    """-> list of query dicts {id, code, method, kw, kind} for one shape (mode-independent)."""
-    attrs = _shape_attrs(shape)
-    steps = _step_alphabet(shape)
-    maxlen = 2 if tier == 'quick' else 3
+def shape_expressions(shape, full, seqlen=2):
+    """-> (value expressions, statements) of a shape; `full` = every template, otherwise the
+    core ones and the groups exercising the shape's features."""
+    groups = {'core'}
+    for f, _p in shape:
+        groups.update(FEATURE_GROUPS[f])
+    vals = []
+    for a in CORE_ATTRS:
+        vals += _attr_exprs(a, 'core', False)[:1 if not full else 5]
+    for f, _p in shape:
+        for a in FEATURE_ATTRS[f]:
+            if a.startswith('__'):
+                if full:
+                    vals += _attr_exprs(a, 'misc', False)[:2]
+            else:
+                vals += _attr_exprs(a, 'attr:' + a, True)
+    if full:
+        for a in MISC_ATTRS:
+            vals += _attr_exprs(a, 'misc', False)[:2]
+    vals += [v for v in VALS if full or v[1] in groups]
+    if full:
+        have = {v[2] for v in vals}
+        for seq in _seqs(_step_alphabet(shape), seqlen):
+            if '{T}' + seq not in have:
+                vals.append((seq, 'seq', '{T}' + seq, False))
+    stmts = [st for st in STMTS if full or st[1] in groups]
+    return vals, stmts
+
+
+ROOT_KIND = {'obj': 'obj', 'box0': 'obj', 'holdo': 'obj', 'C': 'C', 'box1': 'C', 'holdc': 'C'}
+
+
+def own_kinds(shape):
+    """The root kinds on which the shape's members are visible: the instance for members of
+    the class/base, the class for members of the metaclass."""
+    return {'C' if (p == 'meta' or f == 'MP') else 'obj' for f, p in shape} or {'obj', 'C'}
+
+
+def shape_queries(shape, tier, roots, full=False, battery='L2', side_battery='L1', seqlen=2,
+                  other=None, side_other=None, own=None):
+    """-> list of query dicts {id, code, method, kw, deep, head} for one shape (no mode).
+
+    Batteries: 'L1' complete; 'L2' + infer; 'B' = L2 and the method battery with deep result
+    touching on the head expressions.  `battery` is for the main roots (obj, C) of the shape's
+    own kind, `other` for the other main root, `side_battery`/`side_other` for the roots reached
+    through a list / a SimpleNamespace.  None = the root is skipped."""
+    vals, stmts = shape_expressions(shape, full, seqlen)
     out = []
+    own = own_kinds(shape) if own is None else own
+    if other is None:
+        other = battery
+    if side_other is None:
+        side_other = side_battery
 
-    def add(qid, code, method, kw=None, **extra):
-        d = {'id': qid, 'code': code, 'method': method, 'kw': kw or {}}
-        d.update(extra)
-        out.append(d)
-
-    def value_battery(eid, e, full):
-        add(eid + '|complete', e + '.', 'complete', value=e)
-        add(eid + '|infer@', e, 'infer', value=e)
-        if not full:
-            return
-        var = 'v_ = %s\nv_' % e
-        for m, kw in B_FULL + (B_THOROUGH_EXTRA if tier == 'thorough' else []):
-            add('%s|v:%s%s' % (eid, m, _kwid(kw)), var, m, kw, value=e)
-        add(eid + '|sig', e + '(', 'get_signatures')
-        add(eid + '|names', var + '.', 'get_names', {'all_scopes': True, 'references': True})
-        if tier == 'thorough':
-            add(eid + '|cfuzzy', e + '.', 'complete', {'fuzzy': True})
-            add(eid + '|search', var, 'search', {'string': 'v_'})
-            add(eid + '|csearch', var, 'complete_search', {'string': 'v_'})
-            add(eid + '|rename', var, 'rename', {'new_name': 'zz_'})
-            add(eid + '|inline', var, 'inline', {})
-            add(eid + '|extract', e, 'extract_variable', {'new_name': 'zz_'})
+    def add(qid, code, method, kw=None, deep=False, head=False):
+        out.append({'id': qid, 'code': code, 'method': method, 'kw': kw or {}, 'deep': deep,
+                    'head': head})
 
     for rname, T in roots:
-        main = not light and rname in ('obj', 'C')
-        value_battery('%s|self' % rname, T, True)
-        for a in attrs:
-            value_battery('%s|.%s' % (rname, a), '%s.%s' % (T, a), main)
-            if main or not a.startswith('__'):
-                value_battery('%s|getattr:%s' % (rname, a), "getattr(%s, '%s')" % (T, a), False)
-        for seq in _seqs(steps, maxlen if not light else 1):
-            value_battery('%s|%s' % (rname, seq), T + seq,
-                          main and seq.count('.') + seq.count('[') + seq.count('(') == 1)
-        for wid, fmt in WRAPS:
-            value_battery('%s|w:%s' % (rname, wid), fmt.format(T=T), main and tier == 'thorough')
-        for sid, fmt in STMTS:
+        mine = rname not in ROOT_KIND or ROOT_KIND[rname] in own
+        if rname.startswith(('box', 'hold')):
+            bat = side_battery if mine else side_other
+        else:
+            bat = battery if mine else other
+        if bat in (None, 'skip'):
+            continue
+        for eid, _group, fmt, head in vals:
+            e = fmt.format(T=T)
+            eid = '%s|%s' % (rname, eid)
+            big = bat == 'BA' or (bat == 'B' and head)
+            add(eid + '|complete', e + '.', 'complete', deep=big, head=head)
+            if bat != 'L1':
+                add(eid + '|infer@', e, 'infer', deep=big)
+            if not big:
+                continue
+            var = 'v_ = %s\nv_' % e
+            for m, kw in B_FULL + (B_THOROUGH_EXTRA if tier == 'thorough' else []):
+                add('%s|v:%s%s' % (eid, m, _kwid(kw)), var, m, kw, deep=True)
+            add(eid + '|sig', e + '(', 'get_signatures', deep=True)
+            add(eid + '|names', var + '.', 'get_names', {'all_scopes': True, 'references': True},
+                deep=True)
+            if tier == 'thorough':
+                add(eid + '|cfuzzy', e + '.', 'complete', {'fuzzy': True})
+                add(eid + '|search', var, 'search', {'string': 'v_'})
+                add(eid + '|csearch', var, 'complete_search', {'string': 'v_'})
+                add(eid + '|rename', var, 'rename', {'new_name': 'zz_'})
+                add(eid + '|inline', var, 'inline', {})
+                add(eid + '|extract', e, 'extract_variable', {'new_name': 'zz_'})
+        for sid, _group, fmt, head in stmts:
             code = fmt.format(T=T)
-            add('%s|s:%s|complete' % (rname, sid), code + 'v_.', 'complete')
-            add('%s|s:%s|infer' % (rname, sid), code + 'v_', 'infer')
-            if main:
+            sid = '%s|s:%s' % (rname, sid)
+            big = bat == 'BA' or (bat == 'B' and head)
+            add(sid + '|complete', code + 'v_.', 'complete', deep=big, head=head)
+            if bat != 'L1':
+                add(sid + '|infer', code + 'v_', 'infer', deep=big)
+            if big:
                 for m, kw in B_FULL[1:]:
-                    add('%s|s:%s|%s%s' % (rname, sid, m, _kwid(kw)), code + 'v_', m, kw)
-                add('%s|s:%s|names' % (rname, sid), code + 'v_', 'get_names',
-                    {'all_scopes': True, 'references': True})
+                    add('%s|%s%s' % (sid, m, _kwid(kw)), code + 'v_', m, kw, deep=True)
+                add(sid + '|names', code + 'v_', 'get_names',
+                    {'all_scopes': True, 'references': True}, deep=True)
     return out
 
 
@@ -249,7 +326,7 @@ def _kwid(kw):
 SHAPE_ROOTS = [('obj', 'obj'), ('C', 'C'), ('box0', 'box[0]'), ('box1', 'box[1]'),
                ('holdo', 'hold.o'), ('holdc', 'hold.c')]
 SUB_ROOTS = [('lsub', 'lsub'), ('tsub', 'tsub'), ('dsub', 'dsub'), ('ssub', 'ssub'),
-             ('box0', 'box[0]'), ('box1', 'box[1]'), ('box2', 'box[2]'), ('box3', 'box[3]')]
+             ('boxl', 'box[0]'), ('boxt', 'box[1]'), ('boxd', 'box[2]'), ('boxs', 'box[3]')]
 
 
 # --------------------------------------------------------------------------------------------
@@ -262,15 +339,14 @@ def _is_plain_attr(o, name):
         static = inspect.getattr_static(o, name)
     except AttributeError:
         return False, None
-    if isinstance(static, types.MemberDescriptorType):
-        pass        # a __slots__ slot: storage, not a user descriptor
-    elif hasattr(type(static), '__get__'):
-        return False, None
+    slot = isinstance(static, types.MemberDescriptorType) and not inspect.isclass(o)
+    if not slot and hasattr(type(static), '__get__'):
+        return False, None      # (a slot of an instance is storage, not a user descriptor)
     try:
         live = getattr(o, name)
     except Exception:
         return False, None
-    if not isinstance(static, types.MemberDescriptorType) and live is not static:
+    if not slot and live is not static:
         return False, None
     return True, live
 
@@ -320,14 +396,14 @@ def plain_paths(ns, roots, maxlen):
     return out
 
 
-def expected_name(o):
-    if inspect.isclass(o):
-        return [o.__name__, 'class']
-    if inspect.isfunction(o) or inspect.isbuiltin(o) or inspect.ismethod(o):
-        return [o.__name__, 'function']
-    if inspect.ismodule(o):
-        return [o.__name__, 'module']
-    return [type(o).__name__, 'instance']
+def expected_names(o):
+    """-> acceptable Name.name values.  For an instance the property's sentence is literal:
+    type(o).__name__.  jedi names a class/function/module object by its own __name__ (infer on
+    `int` says `int`, not `type`); the literal reading type(o).__name__ is accepted as well.
+    Name.type is recorded, not judged (the property speaks about the class only)."""
+    if inspect.isclass(o) or inspect.isroutine(o) or inspect.ismodule(o):
+        return sorted({o.__name__, type(o).__name__})
+    return [type(o).__name__]
 
 
 # --------------------------------------------------------------------------------------------
@@ -363,6 +439,8 @@ def _jedi_site():
 
 
 LIGHT_ATTRS = ('name', 'type', 'complete', 'name_with_symbols')
+MEDIUM_ATTRS = ('name', 'type', 'description', 'full_name', 'module_name', 'line', 'column')
+_DEFINED_NAMES_OF = ('C', 'Leaf', 'Meta', 'LSub', 'DSub', 'K', 'Dyn')
 
 
 def _touch_name(r, defined_names=False):
@@ -400,58 +478,59 @@ def _touch_name(r, defined_names=False):
             x.name, x.type
 
 
-def _touch(method, res, interesting):
-    """Use the results the way a REPL front end does; returns exceptions met (C01's subject)."""
+def _touch(method, res, interesting, deep, defined_names=False):
+    """Use the results the way a REPL front end does; returns exceptions met (C01's subject).
+
+    light: name/type/complete of every completion, the cheap attributes + docstring of other
+    results.  deep: additionally every documented attribute/method of the completions naming
+    the graph's own members (and the first two), resp. of the first 5 + last 2 other results."""
     excs = []
-    if method in ('rename', 'inline', 'extract_variable', 'extract_function'):
+
+    def guarded(f, *a, **k):
         try:
-            res.get_changed_files()
-            res.get_diff()
+            f(*a, **k)
         except Exception as e:
             excs.append(canon.exc_site(e))
+
+    if method in ('rename', 'inline', 'extract_variable', 'extract_function'):
+        guarded(lambda: (res.get_changed_files(), res.get_diff()))
         return excs
     if method == 'get_context':
         res = [res]
     res = list(res)
     if method == 'get_signatures':
         for r in res:
-            try:
-                canon.sig_core(r)
-                for p in r.params:
-                    p.infer_default(), p.infer_annotation()
-            except Exception as e:
-                excs.append(canon.exc_site(e))
+            guarded(canon.sig_core, r)
+            for p in r.params:
+                guarded(p.infer_default)
+                guarded(p.infer_annotation)
     if method in ('complete', 'complete_search'):
-        deep = [r for r in res if r.name in interesting][:10] + res[:2]
         for r in res:
-            try:
-                for a in LIGHT_ATTRS:
-                    getattr(r, a)
-            except Exception as e:
-                excs.append(canon.exc_site(e))
+            guarded(lambda: [getattr(r, a) for a in LIGHT_ATTRS])
+        chosen = [r for r in res if r.name in interesting][:10] + res[:2]
     else:
-        deep = canon.cap(res)
-    for r in deep:
-        try:
-            _touch_name(r, defined_names=method == 'infer' and r.name in _DEFINED_NAMES_OF)
-        except Exception as e:
-            excs.append(canon.exc_site(e))
+        chosen = canon.cap(res)
+        for r in chosen:
+            guarded(lambda: [getattr(r, a) for a in MEDIUM_ATTRS])
+            guarded(r.docstring)
+    if deep:
+        for r in chosen:
+            guarded(_touch_name, r, defined_names and r.name in _DEFINED_NAMES_OF)
     return excs
 
 
-_DEFINED_NAMES_OF = ('C', 'Leaf', 'Meta', 'LSub', 'DSub', 'K', 'Dyn')
-
-
 def run_query(graph, ns, q, unsafe, interesting=()):
-    """One query in a fresh Interpreter.  -> dict(names, types, hits, exc, touch_excs)."""
+    """One query in a fresh Interpreter.  -> dict(names, hits, exc, touch_excs)."""
     jedi = boot.boot()
     from jedi import settings
+    from jedi.api.exceptions import RefactoringError
     project = _project()
     _state['n'] += 1
     path = os.path.join(_state['root'], 'q', 'i%d_%d.py' % (os.getpid(), _state['n']))
     hits = []
     graph.reset()
     graph.set_trace(lambda key: hits.append((key, _jedi_site())))
+    # the setting is read once, in Interpreter.__init__: own it around the whole case
     old = settings.allow_unsafe_interpreter_executions
     settings.allow_unsafe_interpreter_executions = bool(unsafe)
     out = {'names': None, 'exc': None, 'touch_excs': []}
@@ -459,25 +538,21 @@ def run_query(graph, ns, q, unsafe, interesting=()):
         try:
             it = jedi.Interpreter(q['code'], [ns], path=path, project=project)
             m = q['method']
-            if m in ('get_names', 'search', 'complete_search', 'get_syntax_errors'):
-                res = getattr(it, m)(**q['kw'])
-                if m != 'get_names':
-                    res = list(res)
+            line, col = _end(q['code'])
+            if m in ('get_names', 'search', 'complete_search'):
+                res = list(getattr(it, m)(**q['kw']))
             elif m == 'extract_variable':
-                line, col = _end(q['code'])
                 res = it.extract_variable(line, 0, until_line=line, until_column=col, **q['kw'])
             else:
-                line, col = _end(q['code'])
                 res = getattr(it, m)(line, col, **q['kw'])
             if m in ('complete', 'infer', 'goto', 'help'):
                 out['names'] = [[r.name, r.type] for r in res]
-            out['touch_excs'] = _touch(m, res, interesting)
+            out['touch_excs'] = _touch(m, res, interesting, q.get('deep', False),
+                                       q['id'].endswith('|self|infer@'))
+        except RefactoringError:
+            pass
         except Exception as e:
-            from jedi.api.exceptions import RefactoringError
-            if isinstance(e, RefactoringError):
-                out['names'] = None
-            else:
-                out['exc'] = {'site': canon.exc_site(e), 'tb': canon.short_tb(e)}
+            out['exc'] = {'site': canon.exc_site(e), 'tb': canon.short_tb(e)}
     finally:
         settings.allow_unsafe_interpreter_executions = old
         graph.set_trace(None)
@@ -494,58 +569,54 @@ def _judge_hits(hits):
     return d
 
 
-def _safe_eval(expr, ns):
-    try:
-        return True, eval(expr, dict(ns))
-    except Exception:
-        return False, None
+def _bump(d, k, n=1):
+    d[k] = d.get(k, 0) + n
 
 
 def _check(graph, ns, q, unsafe, interesting, fails, stats, oracle=None):
-    """Run q, apply the oracles.  oracle = None | ('dir', live) | ('class', live) | both."""
+    """Run q, apply the oracles.  oracle = None | {'dir': names} | {'class': names}."""
     r = run_query(graph, ns, q, unsafe, interesting)
     stats['queries'] += 1
-    stats['by_method'][q['method']] = stats['by_method'].get(q['method'], 0) + 1
+    _bump(stats['by_method'], q['method'])
     for s in r['touch_excs']:
-        stats['touch_excs'][s] = stats['touch_excs'].get(s, 0) + 1
+        _bump(stats['touch_excs'], s)
     if r['exc'] is not None and not oracle:
-        stats['other_excs'][r['exc']['site']] = stats['other_excs'].get(r['exc']['site'], 0) + 1
+        _bump(stats['other_excs'], r['exc']['site'])
     for key, _site in r['hits']:
-        kind = key.split('/')[0]
-        bucket = stats['hits_unsafe' if unsafe else 'hits_safe']
-        bucket[kind] = bucket.get(kind, 0) + 1
+        _bump(stats['hits_unsafe' if unsafe else 'hits_safe'], key.split('/')[0])
+    base = {'code': q['code'], 'method': q['method'], 'kw': q['kw'],
+            'mode': 'unsafe' if unsafe else 'safe'}
     if not unsafe:
         for (key, site), n in sorted(_judge_hits(r['hits']).items()):
             fails.append({'site': 'safe-exec:%s@%s' % (key, site), 'q': q, 'unsafe': unsafe,
-                          'detail': {'code': q['code'], 'method': q['method'], 'kw': q['kw'],
-                                     'counter': key, 'times': n, 'called_from': site,
-                                     'expected': 'counter stays 0 in safe mode'}})
+                          'detail': dict(base, counter=key, times=n, called_from=site,
+                                         expected='counter stays 0 in safe mode')})
     if oracle:
         if r['exc'] is not None:
             fails.append({'site': r['exc']['site'], 'q': q, 'unsafe': unsafe,
-                          'detail': {'code': q['code'], 'method': q['method'],
-                                     'traceback': r['exc']['tb'], 'expected': 'no exception'}})
+                          'detail': dict(base, traceback=r['exc']['tb'],
+                                         expected='no exception')})
             return r
         if 'dir' in oracle:
             stats['dir_checks'] += 1
-            want = [n for n in oracle['dir']]
             have = set(n for n, _t in r['names'])
-            missing = sorted(set(want) - have)
+            missing = sorted(set(oracle['dir']) - have)
             if missing:
                 fails.append({'site': 'dir-missing@complete', 'q': q, 'unsafe': unsafe,
-                              'detail': {'code': q['code'], 'missing': missing[:20],
-                                         'n_offered': len(have), 'n_dir': len(want),
-                                         'expected': 'completions superset of dir(object)'}})
+                              'detail': dict(base, missing=missing[:20], n_offered=len(have),
+                                             n_dir=len(oracle['dir']),
+                                             expected='completions superset of dir(object)')})
         if 'class' in oracle:
             stats['class_checks'] += 1
-            exp = oracle['class']
+            names = oracle['class']
             got = sorted(set(map(tuple, r['names'])))
-            stats['classes'][exp[0] + '/' + exp[1]] = \
-                stats['classes'].get(exp[0] + '/' + exp[1], 0) + 1
-            if got != [tuple(exp)]:
+            if got and all(g[0] in names for g in got):
+                for g in got:
+                    _bump(stats['classes'], '%s/%s' % g)
+            else:
                 fails.append({'site': 'infer-class@infer', 'q': q, 'unsafe': unsafe,
-                              'detail': {'code': q['code'], 'expected': exp,
-                                         'observed': [list(g) for g in got]}})
+                              'detail': dict(base, expected_name_one_of=names,
+                                             observed=[list(g) for g in got])})
     return r
 
 
@@ -570,32 +641,31 @@ def _graph_for(task):
 
 
 def _plain_queries(ns, roots, maxlen, tier):
-    """queries with oracles for every plain path."""
+    """queries with oracles for every plain path: [(query, oracle kind, expression)]."""
     qs = []
-    for e, live in plain_paths(ns, roots, maxlen):
+    for e, _live in plain_paths(ns, roots, maxlen):
         qs.append(({'id': 'p|%s|complete' % e, 'code': e + '.', 'method': 'complete', 'kw': {}},
                    'dir', e))
         qs.append(({'id': 'p|%s|infer@' % e, 'code': e, 'method': 'infer', 'kw': {}},
                    'class', e))
-        qs.append(({'id': 'p|%s|v:infer' % e, 'code': 'v_ = %s\nv_' % e, 'method': 'infer',
-                    'kw': {}}, 'class', e))
         if tier == 'thorough':
-            qs.append(({'id': 'p|%s|v:complete' % e, 'code': 'v_ = %s\nv_.' % e,
-                        'method': 'complete', 'kw': {}}, 'dir', e))
+            qs.append(({'id': 'p|%s|v:infer' % e, 'code': 'v_ = %s\nv_' % e, 'method': 'infer',
+                        'kw': {}}, 'class', e))
     return qs
 
 
 def _oracle_for(kind, expr, ns):
-    ok, live = _safe_eval(expr, ns)
-    if not ok:
+    try:
+        live = eval(expr, dict(ns))
+    except Exception:
         return None
     if kind == 'dir':
         return {'dir': sorted(dir(live))}
-    return {'class': expected_name(live)}
+    return {'class': expected_names(live)}
 
 
 def _work(task):
-    """All queries of one (graph, variant): safe mode everything, unsafe mode the oracle part."""
+    """All queries of one (graph, variant): safe mode everything, both modes the plain paths."""
     shape, graph = _graph_for(task)
     ns = graph.namespace()
     tier = task['tier']
@@ -603,13 +673,17 @@ def _work(task):
     stats = _new_stats()
     only = task.get('only')     # replay: a single (query id, unsafe)
     if task['family'] == 'shape':
-        roots = SHAPE_ROOTS if not task.get('light') else SHAPE_ROOTS[:2]
-        qs = shape_queries(shape, tier, roots, light=task.get('light', False))
+        roots = [r for r in SHAPE_ROOTS if r[0] in task['roots']]
+        qs = shape_queries(shape, tier, roots, full=task['full'], battery=task['battery'],
+                           side_battery=task['side'], seqlen=task.get('seqlen', 2),
+                           other=task['other'], side_other=task['side_other'])
         interesting = set(_shape_attrs(shape)) | {'leafattr', 'leafmeth'}
-        plain_roots = ['obj', 'C', 'box', 'hold']
-        plain_len = 2 if tier == 'quick' else 3
+        plain_roots = [r for r in ('obj', 'C', 'box', 'hold') if r in task['plain_roots']]
+        plain_len = task['plain_len']
     elif task['family'] == 'sub':
-        qs = shape_queries((), tier, SUB_ROOTS, light=False)
+        # the groups item, iter, len, bool (+ core); everything in thorough
+        qs = shape_queries((('GI', 'cls'), ('LE', 'cls')), tier, SUB_ROOTS,
+                           full=tier == 'thorough', battery='L2', side_battery='L1')
         interesting = {'leafattr', 'append', 'keys', '__getitem__', '__iter__', '__len__'}
         plain_roots = ['box']
         plain_len = 1
@@ -618,73 +692,102 @@ def _work(task):
         interesting = {'katt', 'kia', 'ca', 'cs', 'ia', 'real', 'upper'}
         plain_roots = task['roots']
         plain_len = task['maxlen']
-    # 1. safe mode: every expression x battery
     for q in qs:
-        if only and (q['id'], False) != tuple(only):
+        if only and [q['id'], False] != list(only):
             continue
         _check(graph, ns, q, False, interesting, fails, stats)
-    # 2. both modes: plain paths with the differential oracles
+    # unsafe mode may execute: the head expressions are run only to show that the routes and
+    # the counters are live (non-vacuity of the safe-mode verdicts); nothing is judged
+    for q in qs:
+        if q['head'] and not only:
+            _check(graph, ns, dict(q, deep=False), True, interesting, fails, stats)
     pq = _plain_queries(ns, plain_roots, plain_len, tier)
     stats['plain_paths'] = len({e for _q, _k, e in pq})
     for unsafe in (False, True):
         for q, kind, expr in pq:
-            if only and (q['id'], unsafe) != tuple(only):
+            if only and [q['id'], unsafe] != list(only):
                 continue
             oracle = _oracle_for(kind, expr, ns)
-            if oracle is None:
-                continue
-            _check(graph, ns, q, unsafe, interesting, fails, stats, oracle)
-    # 3. unsafe mode: the root completions of every expression family still work (no oracle on
-    #    counters: executing is allowed) -- only the roots, the rest is covered by 2.
+            if oracle is not None:
+                _check(graph, ns, q, unsafe, interesting, fails, stats, oracle)
     return {'fails': fails, 'stats': stats, 'nq': len(qs), 'npq': len(pq)}
 
 
 # --------------------------------------------------------------------------------------------
 # explorer
 # --------------------------------------------------------------------------------------------
+def _shape_tasks(tier, shapes, variants, shadow=False, **conf):
+    base = {'family': 'shape', 'tier': tier, 'full': False, 'battery': 'L2', 'other': 'L1',
+            'side': 'L1', 'side_other': 'skip', 'roots': ['obj', 'C'],
+            'plain_roots': ['obj', 'C'], 'plain_len': 1}
+    base.update(conf)
+    out = []
+    for s in shapes:
+        for v in variants:
+            t = dict(base, shape=cat.shape_id(s, shadow), variant=v)
+            if v != 'file' and not conf.get('side_everywhere'):
+                # reached through a container a findable object is a pure CompiledValue; for
+                # the other variants it is one already: the side roots only go with 'file'
+                t['roots'] = [r for r in t['roots'] if r in ('obj', 'C')]
+                t['plain_roots'] = [r for r in t['plain_roots'] if r in ('obj', 'C')]
+            t.pop('side_everywhere', None)
+            out.append(t)
+    return out
+
+
 def _levels(tier):
     singles, pairs_same = cat.all_shapes(mixed_placements=False)
     _s, pairs_all = cat.all_shapes(mixed_placements=True)
-    pairs_mixed = [p for p in pairs_all if p not in set(pairs_same)]
+    same = set(pairs_same)
+    pairs_mixed = [p for p in pairs_all if p not in same]
+    descr = [s for s in singles if s[0][0] in ('P', 'ND', 'DD', 'SL')]
+    fe = cat.VARIANTS[:2]
     levels = []
-
-    def shape_tasks(shapes, variants, shadow=False, light=False):
-        return [{'family': 'shape', 'shape': cat.shape_id(s, shadow), 'variant': v,
-                 'tier': tier, 'light': light} for s in shapes for v in variants]
-
-    cont = []
     maxlen = 3 if tier == 'quick' else 4
-    for v in cat.VARIANTS[:2]:
-        for r in ['d2', 'l2', 't2', 'inst', 'dynst', 'sn']:
-            cont.append({'family': 'cont', 'variant': v, 'tier': tier, 'roots': [r],
-                         'maxlen': maxlen})
-    levels.append(('containers(paths<=%d)' % maxlen, cont))
-    levels.append(('builtin-subclasses', [{'family': 'sub', 'variant': v, 'tier': tier}
-                                          for v in cat.VARIANTS[:2]]))
+    cont = [{'family': 'cont', 'variant': v, 'tier': tier, 'roots': [r], 'maxlen': maxlen}
+            for v in fe for r in ['d2', 'l2', 't2', 'inst', 'dynst', 'sn']]
+    levels.append(('containers(plain paths<=%d) x {file,exec}' % maxlen, cont))
+    levels.append(('builtin-subclasses x {file,exec}',
+                   [{'family': 'sub', 'variant': v, 'tier': tier} for v in fe]))
+    side = ['obj', 'C', 'box0', 'box1']
     if tier == 'quick':
-        levels.append(('singles x {file,exec,dyn}', shape_tasks(singles, cat.VARIANTS)))
-        levels.append(('singles shadowed x {file,exec}',
-                       shape_tasks([s for s in singles if s[0][0] in ('P', 'ND', 'DD')],
-                                   cat.VARIANTS[:2], shadow=True, light=True)))
-        levels.append(('pairs same placement x {file,exec} (light)',
-                       shape_tasks(pairs_same, cat.VARIANTS[:2], light=True)))
+        levels.append(('singles x {file,exec}: relevant expressions, battery on heads',
+                       _shape_tasks(tier, singles, fe, battery='B', roots=side,
+                                    plain_roots=['obj', 'C', 'box'])))
+        levels.append(('descriptor singles shadowed in the instance dict x {file,exec}',
+                       _shape_tasks(tier, descr, fe, shadow=True, roots=['obj'],
+                                    plain_roots=['obj'])))
+        levels.append(('singles x {dyn}: relevant expressions, own root',
+                       _shape_tasks(tier, singles, ['dyn'], other='skip')))
+        levels.append(('pairs, same placement x {exec}: relevant expressions, own root, complete',
+                       _shape_tasks(tier, pairs_same, ['exec'], battery='L1', other='skip',
+                                    plain_roots=[])))
     else:
-        levels.append(('singles x {file,exec,dyn}', shape_tasks(singles, cat.VARIANTS)))
-        levels.append(('singles shadowed x {file,exec,dyn}',
-                       shape_tasks(singles, cat.VARIANTS, shadow=True, light=True)))
-        levels.append(('pairs same placement x {file,exec,dyn}',
-                       shape_tasks(pairs_same, cat.VARIANTS)))
-        levels.append(('pairs mixed placement x {file,exec} (light)',
-                       shape_tasks(pairs_mixed, cat.VARIANTS[:2], light=True)))
+        allroots = side + ['holdo', 'holdc']
+        levels.append(('singles x {file,exec}: all expressions, battery on heads',
+                       _shape_tasks(tier, singles, fe, full=True, battery='B',
+                                    roots=allroots, side_everywhere=True,
+                                    plain_roots=['obj', 'C', 'box', 'hold'], plain_len=2)))
+        levels.append(('singles x {dyn}: relevant expressions, battery on heads',
+                       _shape_tasks(tier, singles, ['dyn'], battery='B')))
+        levels.append(('singles shadowed in the instance dict x {file,exec}',
+                       _shape_tasks(tier, singles, fe, shadow=True, battery='B', roots=side)))
+        levels.append(('pairs, same placement x {file,exec}: relevant expressions',
+                       _shape_tasks(tier, pairs_same, fe, roots=side)))
+        levels.append(('pairs, same placement x {dyn}: own root, complete',
+                       _shape_tasks(tier, pairs_same, ['dyn'], battery='L1', other='skip',
+                                    plain_roots=['obj'])))
+        levels.append(('pairs, mixed placement x {exec}: relevant expressions',
+                       _shape_tasks(tier, pairs_mixed, ['exec'], plain_roots=[])))
     return levels
 
 
 def _task_id(t):
     if t['family'] == 'shape':
-        return '%s|%s%s' % (t['shape'], t['variant'], '|light' if t.get('light') else '')
+        return '%s|%s' % (t['shape'], t['variant'])
     if t['family'] == 'sub':
         return 'sub|%s' % t['variant']
-    return 'cont:%s|%s' % ('+'.join(t['roots']), t['variant'])
+    return 'cont|%s' % t['variant']
 
 
 def run(ctx):
@@ -693,13 +796,12 @@ def run(ctx):
     done = []
     exhaustive = True
     samples = []
-    obs = set()
+    graphs = 0
     for name, tasks in _levels(ctx.tier):
         if ctx.time_left() < 10:
             exhaustive = False
             ctx.note('level %s not started (time cap)' % name)
             continue
-        # longest first is not needed: tasks of a level are of similar size
         pres = pool.run(tasks, 'jv.props.c13:_work', init='jv.props.c13:_init',
                         seed=ctx.seed, deadline=ctx.deadline, tag='c13')
         ctx.absorb(pres, name)
@@ -712,13 +814,13 @@ def run(ctx):
             r = pres.results.get(i)
             if r is None:
                 continue
+            graphs += 1
             states += r['nq'] + 2 * r['npq']
             _merge(agg, r['stats'])
             for f in r['fails']:
                 iid = '%s|%s|%s' % (tid, 'u' if f['unsafe'] else 's', f['q']['id'])
                 ctx.violation(f['site'], iid, f['detail'],
                               {'task': t, 'only': [f['q']['id'], f['unsafe']]})
-                obs.add(f['site'])
         if pres.skipped:
             exhaustive = False
             ctx.note('level %s: %d of %d graphs not explored (time cap)'
@@ -735,16 +837,17 @@ def run(ctx):
         'distinct_nontrivial': len(agg['classes']) + len(agg['by_method']),
         'rule': 'state = (graph, variant, mode, expression, query); transition = one query in a '
                 'fresh Interpreter with its results touched; distinct_nontrivial = distinct '
-                '(expected class, kind) values confirmed by the infer oracle + distinct query '
+                '(reported name, kind) values confirmed by the infer oracle + distinct query '
                 'methods exercised',
+        'graphs': graphs,
         'levels_completed': done, 'exhaustive': exhaustive, 'samples': samples,
         'queries_by_method': agg['by_method'],
         'dir_oracle_checks': agg['dir_checks'], 'class_oracle_checks': agg['class_checks'],
         'classes_confirmed': agg['classes'],
         'counter_hits_safe_mode': agg['hits_safe'],
         'counter_hits_unsafe_mode': agg['hits_unsafe'],
-        'exceptions_in_result_attributes(not judged here, C01)': agg['touch_excs'],
-        'exceptions_in_unjudged_queries(not judged here, C01)': agg['other_excs'],
+        'exceptions_in_result_attributes_not_judged': agg['touch_excs'],
+        'exceptions_in_unjudged_queries': agg['other_excs'],
         'features': cat.FEATURES, 'placements': cat.PLACEMENTS, 'variants': cat.VARIANTS,
     })
     ctx.assumptions += [
@@ -755,10 +858,14 @@ def run(ctx):
         'a path is plain iff inspect.getattr_static (CPython, not jedi) finds a non-descriptor '
         '(or a __slots__ slot) and getattr returns that very object; container steps only on '
         'objects whose type is exactly dict/list/tuple',
+        'a stored class/function/module may be reported under its own __name__ (jedi names '
+        'the object) or under type(object).__name__; instances strictly type(object).__name__',
         'every query runs in a fresh Interpreter with its own path; the setting is set before '
         'construction and restored afterwards',
         'exceptions escaping queries that carry no dir/class oracle, and exceptions from result '
         'attributes, are counted in coverage but not judged (C01 owns totality)',
+        'quick tier: every shape meets the expression groups that exercise its features (and '
+        'the core ones); thorough tier: single-feature shapes meet every expression template',
     ]
 
 
